@@ -42,6 +42,8 @@ class VClock:
 
         def _sleep(d):
             self.sleeps.append((tag, d))
+            if len(self.sleeps) > 200000:
+                raise HangForever()       # a polling loop that no clock can end
             if d > 0:
                 self.t += d
         return types.SimpleNamespace(time=_time, sleep=_sleep)
@@ -116,6 +118,10 @@ class Peer:
             self.q.append([now, a["full"] + a["exc"]])
         elif name == "wrongthenown":       # a short frame of another unit, then the own (exception) reply, in one burst
             self.q.append([now, a["wrong_short"] + a["exc"]])
+        elif name == "slow":               # the correct reply in two bursts: header part now, the rest 50 ms later
+            k = min(max(p.get("k", 5), 2), len(a["full"]) - 1)
+            self.q.append([now, a["full"][:k]])
+            self.q.append([now + 0.05, a["full"][k:]])
         elif name == "barefc":             # well-framed reply that carries only the function code
             self.q.append([now, a["barefc"]])
         elif name == "truncbc":            # well-framed reply cut right after its byte count / first data byte
@@ -633,6 +639,12 @@ class Rig:
             res = ("none",)
         else:
             res = ("other", type(r).__name__)
+        is_error = None
+        if res[0] in ("reply", "err"):
+            try:
+                is_error = bool(r.isError())
+            except Exception:  # noqa: BLE001
+                is_error = None
         delays = [d for tag, d in self.clock.sleeps[nsleep0:] if tag == "transaction"]
         backoff = c.transaction.backoff
         size = getattr(req, "get_response_pdu_size", None)
@@ -648,7 +660,7 @@ class Rig:
             "entry": {"state": entry_state, "nonempty": entry_nonempty, "noresp": entry_noresp,
                       "ntx": entry_tx, "connected": entry_connected},
             "trace": list(self.trace), "framer": list(self.fr_events), "delivered": list(self.delivered),
-            "written": list(self.peer.written), "result": res,
+            "written": list(self.peer.written), "result": res, "is_error": is_error,
             "sleeps": [int(round(d / backoff * 2)) for d in delays],
             "exit": {"ntx": len(c.transaction.transactions), "noresp": list(c.transaction._no_response_devices),
                      "tid": int(c.transaction.tid), "state": self.fstate(), "connected": bool(c.socket)},
@@ -699,7 +711,7 @@ def cresult(r):
     return "RStuck"          # hang / foreign object: never equal to a model result, never accepted by an oracle
 
 
-BEH = {"wrongthenown": "BWrongThenOwn", "full": "BFull", "exc": "BExc", "nothing": "BNothing", "partial": "BPartial", "garbage": "BGarbage",
+BEH = {"slow": "BSlow", "wrongthenown": "BWrongThenOwn", "full": "BFull", "exc": "BExc", "nothing": "BNothing", "partial": "BPartial", "garbage": "BGarbage",
        "wrongunit": "BWrongUnit", "stale": "BStale", "late": "BLate", "oserror": "BOSError", "close": "BClose"}
 
 
@@ -727,13 +739,15 @@ def txn_term(o, req_id, behs):
     return ("{| x_req := {| r_unit := %s; r_fc := %s; r_psize := %s; r_id := %s |}; x_script := %s;\n"
             "   x_calls := %s; x_result := %s; x_sleeps := %s;\n"
             "   x_fs_exit := %s; x_noresp_exit := %s; x_tid_exit := %s; x_ntx_exit := %s; x_conn_exit := %s;\n"
-            "   x_want_tid := %s; x_behs := %s; x_exp_full := %s; x_exp_exc := %s; x_delivered := %s; x_refused := %s |}") % (
+            "   x_want_tid := %s; x_behs := %s; x_exp_full := %s; x_exp_exc := %s; x_delivered := %s; x_refused := %s;\n"
+            "   x_is_error := %s |}") % (
         z(o["unit"]), z(o["fc"]), copt(o["pdu_size"]), z(req_id), clist(sc),
         clist(calls), cresult(o["result"]), clist(z(x) for x in o["sleeps"]),
         z(o["exit"]["state"]), clist(z(x) for x in o["exit"]["noresp"]), z(o["exit"]["tid"]), z(o["exit"]["ntx"]),
         cbool(o["exit"]["connected"]),
         z(o["want_tid"]), clist(BEH.get(b, "BOther") for b in behs), z(o["expected"]["full"] or 0),
-        z(o["expected"]["exc"] or 0), clist(cmsg(m) for m in o["delivered"]), cbool(o["refused"]))
+        z(o["expected"]["exc"] or 0), clist(cmsg(m) for m in o["delivered"]), cbool(o["refused"]),
+        "None" if o["is_error"] is None else "(Some %s)" % cbool(o["is_error"]))
 
 
 def table_term(rig, obs_list, req_ids):
@@ -769,7 +783,7 @@ def run_case(spec):
     T = all_requests()
     rig = Rig(spec["kind"], retries=spec.get("retries"), retry_on_empty=spec.get("roe", False),
               retry_on_invalid=spec.get("roi", False), broadcast_enable=spec.get("bcast", False),
-              tid0=spec.get("tid0", 0))
+              tid0=spec.get("tid0", 0), timeout=spec.get("timeout", TIMEOUT))
     fs0 = rig.fstate()
     names = sorted(T)
     obs, rids = [], []
